@@ -148,6 +148,10 @@ pub struct Panel {
     pub cmd_count: u64,
     /// a pixel was written (or RAMWR seen) since power-on
     pub ramwr_count: u64,
+    /// solid fills over windows too large to store cell by cell (more than 2^26 cells): counted,
+    /// the frame memory is then no longer meaningful (`mem_valid == false`)
+    pub bulk_fills: u64,
+    pub mem_valid: bool,
 }
 
 impl Panel {
@@ -187,6 +191,8 @@ impl Panel {
             last_cmd_t: 0,
             cmd_count: 0,
             ramwr_count: 0,
+            bulk_fills: 0,
+            mem_valid: true,
         }
     }
 
@@ -541,6 +547,19 @@ impl Panel {
         self.note_pix_words(count * n as u64);
         let c = self.decode(pixel);
         let area = self.bursts.last().map(|b| b.area()).unwrap_or(0);
+        if area > (1 << 26) && count > (1 << 26) {
+            // e.g. clear() of a 65535x65535 framebuffer: only the bookkeeping is kept
+            self.bulk_fills += 1;
+            self.mem_valid = false;
+            self.pixels_total += count;
+            if let Some(b) = self.bursts.last_mut() {
+                b.pixels += count;
+            }
+            if count > area {
+                self.wrapped += 1;
+            }
+            return;
+        }
         let cap = 2 * area + 2;
         let m = count.min(cap);
         for _ in 0..m {
